@@ -1,4 +1,4 @@
-\* FINDING F5 (UNSAVED), expected counterexample (RestoreEqualsRecompute): trees T4i, one restart: the Update calls of a reorganisation that is given up raise the LIB in memory, nothing saves it, the restart brings the older LIB back
+\* BEFORE REPAIR 4cd694af (Fixes without persist), counterexample to RestoreEqualsRecompute: trees T4i, one restart: the Update calls of a reorganisation that is given up raise the LIB in memory, nothing saved it, the restart brought the older LIB back
 SPECIFICATION Spec
 CONSTANTS
   N = 4
@@ -11,7 +11,7 @@ CONSTANTS
   ByzRanges <- R123
   Runs = TRUE
   BadKinds <- OnlyOk
-  Fixes <- AllFixes
+  Fixes <- BeforeF56
 VIEW view
 PROPERTIES RestoreEqualsRecompute
 CHECK_DEADLOCK FALSE
